@@ -44,6 +44,7 @@ func kindsIn(doc []byte) map[directive.Enumeration]int {
 
 func runC18(ctx *Ctx) {
 	r := ctx.Rng.Fork()
+	banCorrespondence(ctx, r, ctx.Budget(20000, 500000))
 	n := ctx.Budget(120, 5000)
 	for i := 0; i < n && len(ctx.Violations) < 10; i++ {
 		m := GenModel(r)
